@@ -41,12 +41,13 @@ func stringDemuxFunc(x []byte) (string, []byte, error) {
 		return "", nil, errors.Errorf("stringmux: could not read message")
 	}
 	x = x[n:]
-	if len(x) < int(chanLength) {
+	// compare as unsigned: a length above MaxInt would become negative as an int
+	if uint64(len(x)) < chanLength {
 		return "", nil, errors.Errorf("stringmux: length smaller than message")
 	}
 	chanBytes := x[:chanLength]
 	var msg []byte
-	if int(chanLength) < len(x) {
+	if chanLength < uint64(len(x)) {
 		msg = x[chanLength:]
 	}
 	return string(chanBytes), msg, nil
